@@ -201,6 +201,13 @@ embedded_pairing_core_arch_x86_64_bigint_768_square:
     adc %rbx, %rbx
     adc %r9, %r9
 
+    # Doubling can carry out of word 10 (when the operand is at least about
+    # 2^383); keep that carry in word 11 of the result, which is otherwise
+    # only written at the very end.
+    movq $0, %rax
+    adc $0, %rax
+    movq %rax, 88(%rdi)
+
     # Add diagonal (r8 stores the carry)
     movq (%rsi), %rax
     mulq %rax
@@ -233,7 +240,7 @@ embedded_pairing_core_arch_x86_64_bigint_768_square:
     add %rax, %r9
     movq %r9, 80(%rdi)
     adc $0, %rdx
-    movq %rdx, 88(%rdi)
+    add %rdx, 88(%rdi)
 
     pop %r15
     pop %r14
